@@ -24,6 +24,14 @@ ASSUMPTIONS_COMMON = [
 ]
 
 PROPS = {
+    'C18': dict(
+        level='proof',
+        level_text='Unbounded deductive proof (Verus) on the real BlockWriter::insert with the documented assert! modelled as divergence: whenever insert returns, the block under construction has strictly ascending keys and its bytes are exactly the framed entries; finish() emits exactly those bytes plus the offset table. (Writer-level clauses are added as the Writer contracts are discharged.)',
+        level_note='Trusted: Verus/Z3, extractor, the [u8] lexicographic-order axiom (prelude), the R-assert-diverge rewrite (assert!(c) -> if !c { diverge }).',
+        technique='Verus representation invariant on the real BlockWriter (sortedness, framing, offset table)',
+        kani=[], native=[], witness=[],
+        explanation='BlockWriter::wf (closed representation invariant incl. sorted_strict) is required and ensured by every BlockWriter operation',
+    ),
     'C14': dict(
         level='proof',
         level_text='Unbounded deductive proof (Verus) that the real varint_encode32 produces exactly mathematical LEB128 and the real varint_decode32 inverts it on any buffer that starts with it, for all 2^32 values; plus a complete (loop-free / constant-bounded) Kani proof of the same round trip with arbitrary continuation bytes. Framing inside blocks (BlockWriter::insert / Block::entry_at) is carried by labelled clauses of those functions.',
